@@ -10,6 +10,7 @@
 """
 import re, time
 import z3
+from vlib import cross
 
 from .mirparse import MirError, split_top, strip_generics, split_path, simple_type_name, last_seg
 from .values import (Ref, Agg, Opaque, Tok, SeqV, MapV, IterV, FnItem, StrV, int_width, is_signed, fresh_of_type,
@@ -359,6 +360,8 @@ class Engine:
         self.solver_s += time.time() - t0
         if r == z3.unknown:
             raise MirError('solver returned unknown: ' + self.solver.reason_unknown())
+        if cross.ENABLED[0]:
+            cross.record(conds, 'sat' if r == z3.sat else 'unsat', 'feasible')
         return r == z3.sat
 
     def feasible(self, st, extra=None):
@@ -397,6 +400,8 @@ class Engine:
         self.solver_s += time.time() - t0
         if r == z3.unknown:
             raise MirError('solver returned unknown: ' + self.solver.reason_unknown())
+        if cross.ENABLED[0]:
+            cross.record(conds, 'sat' if r == z3.sat else 'unsat', 'feasible')
         return r == z3.sat
 
     def assume(self, st, cond):
@@ -453,6 +458,7 @@ class Engine:
         self.solver_s += time.time() - t0
         if r == z3.unknown:
             raise MirError('solver unknown')
+        cross.record(list(pc) + [z3.Not(claim)], 'unsat' if r == z3.unsat else 'sat', 'claim')
         if r == z3.unsat:
             return True, None
         return False, s.model()
